@@ -202,3 +202,153 @@ func ruleNoInputAlias(c *eng.Ctx) {
 		}
 	}
 }
+
+// R9.5 [C09]
+func ruleTextUnmodified(c *eng.Ctx) {
+	const R = "R9.5-TEXT-UNMODIFIED"
+	c.Rule(R, "the regrouping and text-assembly functions copy element text as it is: no trimming by a cut set or suffix/prefix, no replacement, no mapping and no sub-string of it (only strings.TrimSpace, which removes white space, is accepted): anything else removes or alters non-white-space characters", 15, 0)
+	lossy := map[string]bool{
+		"strings.TrimSuffix": true, "strings.TrimPrefix": true, "strings.TrimRight": true, "strings.TrimLeft": true, "strings.Trim": true,
+		"strings.TrimFunc": true, "strings.TrimRightFunc": true, "strings.TrimLeftFunc": true, "strings.Replace": true, "strings.ReplaceAll": true,
+		"strings.Map": true, "strings.NewReplacer": true, "strings.ToLower": true, "strings.ToUpper": true, "strings.Title": true, "strings.CutSuffix": true, "strings.CutPrefix": true, "strings.Cut": true,
+	}
+	for _, name := range c09Functions {
+		fn := c.P.Func(name)
+		if fn == nil {
+			continue // reported by R9.1
+		}
+		var bad []string
+		for _, h := range eng.Cluster(fn, 2) {
+			if h != fn && h.Pkg != nil && eng.ShortPath(h.Pkg.Pkg.Path()) != eng.ShortPath(fn.Pkg.Pkg.Path()) {
+				continue
+			}
+			eng.Instrs(h, true, func(in ssa.Instruction) {
+				switch x := in.(type) {
+				case ssa.CallInstruction:
+					if n := eng.CalleeName(x); lossy[n] {
+						bad = append(bad, n+" at "+c.P.Pos(x.Pos()))
+					}
+				case *ssa.Slice:
+					if bt, ok := x.X.Type().Underlying().(*types.Basic); ok && bt.Info()&types.IsString != 0 {
+						bad = append(bad, "sub-string at "+c.P.Pos(x.Pos()))
+					}
+				}
+			})
+		}
+		sort.Strings(bad)
+		c.Check(len(bad) == 0, R, name, fn.Pos(), "element text is copied unmodified", "element text is altered on its way to the output ("+strings.Join(dedupStr(bad), "; ")+"): characters of the input are removed or changed")
+	}
+}
+
+// R17.4 [C17] (applied to every OOXML/ODF/EPUB reader)
+func ruleFreshDecodeTarget(c *eng.Ctx) {
+	const R = "R17.4-FRESH-DECODE-TARGET"
+	c.Rule(R, "every xml.Unmarshal / Decoder.Decode / DecodeElement in the document readers decodes into storage allocated in the same function (a local, or a field that was just assigned a new value): encoding/xml appends to existing slices and keeps stale pointers, so a reused destination leaks the previous part's cells, merges or paragraphs into the next one", 20, 0)
+	for _, fn := range c.P.ModuleFuncs() {
+		if fn.Pkg == nil {
+			continue
+		}
+		switch eng.ShortPath(fn.Pkg.Pkg.Path()) {
+		case "xlsx", "docx", "odt", "pptx", "epubdoc":
+		default:
+			continue
+		}
+		n := 0
+		for _, ci := range eng.Calls(fn, true, func(name string, _ ssa.CallInstruction) bool {
+			return name == "encoding/xml.Unmarshal" || name == "encoding/xml.(*Decoder).Decode" || name == "encoding/xml.(*Decoder).DecodeElement"
+		}) {
+			args := ci.Common().Args
+			var dst ssa.Value
+			if eng.CalleeName(ci) == "encoding/xml.Unmarshal" {
+				dst = args[1]
+			} else {
+				dst = args[1] // receiver is args[0]
+			}
+			n++
+			key := fmt.Sprintf("%s#decode%d", eng.FuncName(fn), n)
+			fresh, why := freshStorage(ci.Parent(), eng.Unwrap(dst), ci, 0)
+			c.Check(fresh, R, key, ci.Pos(), "destination allocated here", "the XML is decoded into storage that outlives the call ("+why+"): content of a previously decoded part stays in its slices and pointers")
+		}
+	}
+}
+
+// freshStorage: v (a pointer passed as decode destination) points to storage allocated in fn.
+func freshStorage(fn *ssa.Function, v ssa.Value, at ssa.Instruction, depth int) (bool, string) {
+	if depth > 4 {
+		return false, "too indirect"
+	}
+	switch x := v.(type) {
+	case *ssa.Alloc:
+		return true, ""
+	case *ssa.MakeInterface:
+		return freshStorage(fn, x.X, at, depth+1)
+	case *ssa.ChangeInterface:
+		return freshStorage(fn, x.X, at, depth+1)
+	case *ssa.Parameter:
+		// a custom UnmarshalXML decodes into its own receiver / an element of it: the caller owns freshness
+		if root := fn; root != nil {
+			for root.Parent() != nil {
+				root = root.Parent()
+			}
+			if root.Name() == "UnmarshalXML" {
+				return true, ""
+			}
+		}
+		return false, "storage reachable from parameter " + x.Name() + " (it outlives the call)"
+	case *ssa.FieldAddr:
+		// address of a field of fresh storage or of the receiver of an UnmarshalXML method
+		return freshStorage(fn, x.X, at, depth+1)
+	case *ssa.IndexAddr:
+		return freshStorage(fn, x.X, at, depth+1)
+	case *ssa.Phi:
+		for _, e := range x.Edges {
+			if ok, why := freshStorage(fn, e, at, depth+1); !ok {
+				return false, why
+			}
+		}
+		return true, ""
+	case *ssa.UnOp:
+		if x.Op != token.MUL {
+			return false, "computed pointer"
+		}
+		// pointer loaded from a field or local: every store to that place in this function must store fresh storage,
+		// and one such store must dominate the decode
+		var place ssa.Value = x.X
+		stored, dominated := 0, false
+		var bad string
+		eng.Instrs(fn, true, func(in ssa.Instruction) {
+			st, ok := in.(*ssa.Store)
+			if !ok || !eng.SameValue(st.Addr, place) {
+				return
+			}
+			stored++
+			if ok2, why := freshStorage(fn, eng.Unwrap(st.Val), at, depth+1); !ok2 {
+				bad = why
+			}
+			if st.Parent() == at.Parent() && eng.InstrDominates(st, at) {
+				dominated = true
+			}
+		})
+		if stored == 0 {
+			if fr, ok := eng.AsField(place); ok {
+				return false, "field " + fr.Field + " is not assigned in this function"
+			}
+			return false, "pointer not assigned in this function"
+		}
+		if bad != "" {
+			return false, bad
+		}
+		if !dominated {
+			return false, "no fresh assignment precedes the decode on every path"
+		}
+		return true, ""
+	case *ssa.Call:
+		if b, ok := x.Call.Value.(*ssa.Builtin); ok && b.Name() == "new" {
+			return true, ""
+		}
+		return false, "result of a call"
+	case *ssa.Slice:
+		return freshStorage(fn, x.X, at, depth+1)
+	}
+	return false, fmt.Sprintf("%T", v)
+}
